@@ -2,6 +2,7 @@ package sim
 
 import (
 	"errors"
+	"fmt"
 	"io"
 	"net/http"
 )
@@ -11,6 +12,9 @@ var (
 	ErrInjectedRead  = errors.New("sim: injected read error")
 	ErrInjectedWrite = errors.New("sim: injected write error")
 	ErrAborted       = errors.New("sim: run aborted")
+	// ErrInjectedReadEOF is a read FAILURE whose chain contains io.EOF (a transport that
+	// reports "connection closed early: EOF"): only the bare io.EOF value means end of input.
+	ErrInjectedReadEOF = fmt.Errorf("sim: injected read error, connection closed early: %w", io.EOF)
 )
 
 // All methods of the doubles are //go:norace and use only built-ins on their own state,
